@@ -443,6 +443,8 @@ def single_cases(tier, rng, op, frac_quick, extra=None, nrand_quick=3000, nrand_
 
 def maybe_split(d, rng):
     """ask-twice mode for ops that support it in the driver (trim, reduce, compl, witness; sim sets its own)"""
+    if rng.random() < 0.15:
+        d["amode"] = "copy"       # a copy of the operand (sharing its storage) is alive during the call and read back afterwards
     if d["op"] in ("trim", "reduce", "compl", "witness") and len(d["A"]["rules"]) >= 2 and rng.random() < 0.2:
         d["split"] = rng.randint(1, len(d["A"]["rules"]) - 1)
     if d["op"] == "reduce" and rng.random() < 0.3:
